@@ -169,8 +169,10 @@ func c01Instances(add func(*Instance), thorough bool, inv int) {
 				"ak", 2, "akeys", 2*form, "acow", 0, "ac0", a0, "ac1", a1, "bk", 2, "bkeys", 0, "bcow", 0, "bc0", b0, "bc1", b1)})
 			add(&Instance{Func: "VerifC01BitmapBinop", Params: P("op", op, "form", form, "inv", inv, "L", 2,
 				"ak", 1, "akeys", 0, "acow", 1, "ac0", a0, "bk", 2, "bkeys", 0, "bcow", 1, "bc0", b0, "bc1", b1)})
-			add(&Instance{Func: "VerifC01BitmapBinop", Tier: 1, Params: P("op", op, "form", form, "inv", inv, "L", 2,
+			add(&Instance{Func: "VerifC01BitmapBinop", Tier: inv, Params: P("op", op, "form", form, "inv", inv, "L", 2,
 				"ak", 3, "akeys", 0, "acow", 0, "ac0", a0, "ac1", a1, "ac2", a0, "bk", 2, "bkeys", 2, "bcow", 0, "bc0", b0, "bc1", b1)})
+			add(&Instance{Func: "VerifC01BitmapBinop", Tier: inv, Params: P("op", op, "form", form, "inv", inv, "L", 2,
+				"ak", 2, "akeys", 0, "acow", 0, "ac0", b0, "ac1", b1, "bk", 3, "bkeys", 0, "bcow", 0, "bc0", a0, "bc1", b0, "bc2", a0)})
 			add(&Instance{Func: "VerifC01BitmapBinop", Tier: 1, Params: P("op", op, "form", form, "inv", inv, "L", 2,
 				"ak", 2, "akeys", 0, "acow", 0, "ac0", 100, "ac1", 21, "bk", 2, "bkeys", 0, "bcow", 0, "bc0", 21, "bc1", 100)})
 		}
@@ -186,6 +188,13 @@ func c01Instances(add func(*Instance), thorough bool, inv int) {
 			"ak", 2, "akeys", 0, "acow", 0, "ac0", 1, "ac1", 201, "bk", 2, "bkeys", 0, "bcow", 0, "bc0", 1, "bc1", 1)})
 		add(&Instance{Func: "VerifC01BitmapBinop", Params: P("op", 0, "form", 4, "inv", 0, "L", 2,
 			"ak", 2, "akeys", 0, "acow", 0, "ac0", 21, "ac1", 100, "bk", 2, "bkeys", 0, "bcow", 0, "bc0", 224, "bc1", 21)})
+	}
+	if inv == 0 {
+		// shortcuts (AndCardinality, OrCardinality, Intersects, ...) with 2 x 3 and 3 x 2 free keys: cursors that get out of step
+		for _, kk := range [][2]int{{2, 3}, {3, 2}} {
+			add(&Instance{Func: "VerifC01BitmapBinop", Params: P("op", 0, "form", 4, "inv", 0, "L", 2,
+				"ak", kk[0], "akeys", 0, "acow", 0, "ac0", 1, "ac1", 1, "ac2", 1, "bk", kk[1], "bkeys", 0, "bcow", 0, "bc0", 1, "bc1", 1, "bc2", 1)})
+		}
 	}
 	if inv == 0 {
 		// layer 2: sorted-array kernels
@@ -1141,6 +1150,13 @@ func c19Instances(add func(*Instance), thorough bool) {
 			ad(P("nv", 2, "w", 2, "st", 0, "w2", 2, "symcol", 1, "vfix", 1, "v0", vv[0], "v1", vv[1], "v2", vv[2]), 0)
 			ad(P("nv", 2, "w", 2, "st", 3, "symcol", 1, "vfix", 1, "v0", vv[0], "v1", vv[1]), 0)
 		}
+		if pkg == "bsi" {
+			// negative values (64 two's-complement planes)
+			ad(with(base, "st", 3, "sc", 0, "neg", 1), 0)
+			ad(with(base, "st", 8, "sc", 0, "neg", 1), 0)
+			ad(with(base, "st", 0, "w2", 2, "sc", 0, "neg", 1), 1)
+			ad(with(base, "st", 10, "sc", 0, "neg", 1), 1)
+		}
 		if pkg == "roaring64" {
 			ad(with(base, "st", 1, "w2", 3, "sc", 0), 0)
 			ad(with(base, "st", 4, "sc", 0), 0)
@@ -1156,6 +1172,19 @@ func c20Instances(add func(*Instance), thorough bool) {
 			add(&Instance{Pkg: pkg, Func: "VerifC20Query", Params: with(pp, "cb", 5, "cm", 3), Tier: tier})
 		}
 		base := P("nv", 2, "w", 2, "par", 0)
+		if pkg == "bsi" {
+			// BitSliceIndexing with negative values (the index then uses 64 two's-complement planes)
+			for cop := 1; cop <= 6; cop++ {
+				tier := 0
+				if cop == 2 || cop == 4 {
+					tier = 1 // LE / GE: 120 paths over 64 planes
+				}
+				ad(with(base, "q", 0, "cop", cop, "fs", 0, "neg", 1), tier)
+			}
+			ad(with(base, "q", 2, "fs", 0, "neg", 1), 0)
+			ad(with(base, "q", 3, "fs", 0, "neg", 1), 0)
+			ad(with(base, "q", 4, "fs", 0, "neg", 1), 1)
+		}
 		for cop := 1; cop <= 6; cop++ {
 			for _, fs := range []int{0, 1, 2} {
 				tier := 0
